@@ -80,6 +80,8 @@ def eval_recovery(case):
         res = reservoir(case["res"], case["n"])
         rf = np.asarray(res.recovery_factor(), dtype=float).copy()
         t = np.asarray(res.time, dtype=float)
+        if case.get("history") == "density-first" and case["res"] != "ideal":
+            res.recovery_factor(density=True)  # a different curve is now cached on the object
         fig, ax = plt.subplots()
         try:
             with warnings.catch_warnings(), np.errstate(all="ignore"):
@@ -98,7 +100,7 @@ def eval_recovery(case):
                 viol.append(V("recovery-factor/scale", f"x scale is {out.get_xscale()!r}", case=case))
         finally:
             plt.close(fig)
-    return {"violations": viol, "outcome": "recovery", "key": ("r", case["res"], case["ticks"])}
+    return {"violations": viol, "outcome": "recovery", "key": ("r", case["res"], case["ticks"], case.get("history"))}
 
 
 def eval_comparison(case):
@@ -116,7 +118,10 @@ def eval_comparison(case):
     if case["filter"]:
         gas[[4, 9]] = 0.0
         press[13] = np.nan
-    prod = pd.DataFrame({"Days": np.arange(n) * 1.0, "Gas": gas, "Pressure": press})
+    days = np.arange(n) * 1.0
+    if case.get("days") == "irregular":  # gapped reporting that does not start at day 0
+        days = 30.0 + np.cumsum(1.0 + (np.arange(n) % 5 == 0) * 2.0)
+    prod = pd.DataFrame({"Days": days, "Gas": gas, "Pressure": press})
     prm = Parameters()
     prm.add("M", M)
     prm.add("tau", tau)
@@ -133,7 +138,7 @@ def eval_comparison(case):
             from scipy.ndimage import uniform_filter1d  # noqa: PLC0415
 
             pk = uniform_filter1d(pk, size=case["window"])
-        time = np.arange(keep.sum()) if case["filter"] else np.arange(n) * 1.0
+        time = np.arange(keep.sum()) if case["filter"] else days
         fl = FlowProperties(pvt, p_i)
         res = SinglePhaseReservoir(80, pk, p_i, fl)
         res.simulate(time / tau, pressure_fracface=pk)
@@ -152,7 +157,7 @@ def eval_comparison(case):
                 viol.append(V("comparison/pressure", "pressure curve is not (time/tau, frac-face pressure)", case=case))
     finally:
         plt.close(fig)
-    return {"violations": viol, "outcome": "comparison", "key": ("c", tau, M, case["filter"], case["window"])}
+    return {"violations": viol, "outcome": "comparison", "key": ("c", tau, M, case["filter"], case["window"], case.get("days"))}
 
 
 def eval_transform(case):
@@ -164,7 +169,18 @@ def eval_transform(case):
     eps = np.finfo(a.dtype).eps
     viol = []
     with np.errstate(all="ignore"):
+        keep = a.copy()
         s = np.asarray(fw.transform_non_affine(a))
+        s_again = np.asarray(fw.transform_non_affine(a))
+        if not np.array_equal(a, keep):
+            viol.append(V("transform/input-modified", "the transform overwrote the array it was given", case=case))
+            a = keep.copy()
+        if not np.array_equal(s, s_again, equal_nan=True):
+            viol.append(V("transform/repeatable", "transforming the same array twice gives different results", case=case))
+        b = s.copy()
+        inv.transform(b)
+        if not np.array_equal(b, s, equal_nan=True):
+            viol.append(V("transform/input-modified", "the inverse transform overwrote the array it was given", case=case))
         want = np.sqrt(a.astype(np.float64))
         if not np.all(np.abs(s - want) <= 2 * eps * want):
             viol.append(V("transform/is-square-root", f"transform({a.tolist()}) = {s.tolist()}", case=case))
@@ -210,10 +226,12 @@ def cases(tier, seed):
         everys.append(2 + int(17 * seed_offset(seed)))
     for r, e, rs in itertools.product(["ideal", "gas"], everys, [False, True]):
         out.append({"kind": "profiles", "res": r, "n": n, "every": e, "rescale": rs})
-    for r, tk in itertools.product(["ideal", "gas"], [False, True]):
-        out.append({"kind": "recovery", "res": r, "n": n, "ticks": tk})
+    for r, tk, h in itertools.product(["ideal", "gas"], [False, True], [None, "density-first"]):
+        out.append({"kind": "recovery", "res": r, "n": n, "ticks": tk, "history": h})
     for tau, M, flt, w in itertools.product([25.0, 90.0], [1300.0, 8e4], [True, False], [None, 1, 3]):
         out.append({"kind": "comparison", "tau": tau, "M": M, "filter": flt, "window": w})
+        if w is None:
+            out.append({"kind": "comparison", "tau": tau, "M": M, "filter": flt, "window": w, "days": "irregular"})
     vals = [0.0, 5e-324, 1e-300, 1e-8, 0.25, 1.0, 2.0, 1e8, 1e300]
     out.append({"kind": "transform", "dtype": "f8", "values": vals})
     out.append({"kind": "transform", "dtype": "f4", "values": [0.0, 1e-30, 1e-8, 0.25, 1.0, 2.0, 1e8, 1e30]})
